@@ -331,3 +331,20 @@ pub fn search_dupocc(tag: &str, tier: &str) -> Option<Value> {
     }
     None
 }
+
+// ---------------------------------------------------------------- Span (unit c12_span)
+/// Span::new(start, end) and the look-ups on the result, against the documented behaviour.
+pub fn run_span(start: usize, end: usize) -> Outcome {
+    crate::note_case("c12_span", json!({"start": start, "end": end}));
+    let expected = if end < start { "Span::new refuses (panics)".to_string() } else { format!("start {} end {} len {} is_empty {}", start, end, end - start, start == end) };
+    let r = catch_unwind(AssertUnwindSafe(|| { let s = Span::new(start, end); format!("start {} end {} len {} is_empty {}", s.start(), s.end(), s.len(), s.is_empty()) }));
+    let observed = match r { Ok(s) => s, Err(_) => "Span::new refuses (panics)".to_string() };
+    Outcome { fails: observed != expected, observed, expected }
+}
+pub fn search_span() -> Option<Value> {
+    for s in [0usize, 1, 2, 7, usize::MAX - 1, usize::MAX] { for e in [0usize, 1, 2, 7, usize::MAX - 1, usize::MAX] {
+        let o = run_span(s, e);
+        if o.fails { return Some(witness("c12_span", json!({"start": s, "end": e}), &o)); }
+    } }
+    None
+}
